@@ -5,7 +5,7 @@ use crate::volume::Header;
 /// tape filename = bytes 0..9, extension number = bytes 9..12, ICAO = bytes 20..24, for every ASCII content
 /// (non-ASCII bytes are outside the documented content of these text fields; for them `from_utf8` decides)
 #[kani::proof]
-#[kani::unwind(12)]
+#[kani::unwind(26)]
 fn c05_volume_header_text_fields() {
     let b: [u8; 24] = kani::any();
     let mut i = 0;
